@@ -314,6 +314,23 @@ def check_driver(chk, prog, d, rt_name, cfg):
                and len(init_map) == 1 and init_map[0][0] == "call" and init_map[0][1]["name"] == "alloc::collections::btree::map::BTreeMap::new",
                "R10.D", "retain:fresh-collections", W(), "new_types := %s; retained_mappings := %s" % (
                    [path_str(x) for x in init_new], [path_str(x) for x in init_map]), cfg)
+    # the driver itself never touches the three collections: they are only handed to retain_type (a "fast path" that copies entries
+    # or pre-populates the mapping here bypasses every invariant established in retain_type)
+    touched = []
+    for bb, t in d.calls():
+        nm = d.callee_name(t)
+        for a in t["args"]:
+            at = d.operand_term(a)
+            tgt = mir.strip_transparent(at)
+            via_self_types = paths.access_path(d, at)
+            is_coll = tgt in (new_types, mappings) or (via_self_types is not None and via_self_types[0] == SELF and via_self_types[1].startswith(".types"))
+            if is_coll and nm != rt_name:
+                last_ = nm.split("::")[-1]
+                if last_ in ("len", "deref_mut", "deref", "new") or (at[0] == "ref" and not at[1] and last_ in ("len", "is_empty")):
+                    continue
+                touched.append((bb, nm, path_str(at)))
+    chk.expect(not touched, "R10.D", "retain:collections-only-via-retain_type", W(touched[0][0] if touched else None),
+               "other uses of self.types / new_types / retained_mappings in the driver: %s" % [(n, a) for _, n, a in touched], cfg)
     # the id: item of Range{0, len(self.types) as u32}
     idt = args[0]
     item_ok = False
